@@ -10,6 +10,7 @@ package main
 //   ovf <val> <ty>   marshal scalar, decode into <ty> -> ok <val> <rest> | err
 //   raw <hex>        untyped item structure (checked against an independent walker)
 //   tobj <hex>       codec.TypedObj / TypedDict decoding of arbitrary bytes (oracle only) -> ok
+//   rep <t> <byte> <n>  round trip of n copies of a byte as []byte/string, top level / nested -> <len> <head> ok|err
 //
 // Types are built with reflect (StructOf, SliceOf, ...) from the tokens, except that the
 // declared Go types below are used whenever the tokens describe one of them.
@@ -1578,8 +1579,20 @@ func c23WalkTyped(ty *c23Ty, region []byte) (int, int) {
 	}
 }
 
+func c23GenRep(g *Gen) {
+	n := []int{999999, 1000000, 1000001, 1048576 + g.Intn(5000), 1000001 + g.Intn(3), 2000000 + g.Intn(100000)}[g.Intn(6)]
+	g.Emit("rep %d %02x %d", g.Intn(6), g.Pick(0, 0x61, 0x7f, 0x80, 0xff, g.Intn(256)), n)
+}
+
 func c23Gen(g *Gen) {
+	// byte strings around and above MaxSizeForBytes (1e6): UnmarshalFromBytes raises the reader's
+	// limit to len(input); always one above the limit, one anywhere
+	g.Emit("rep %d %02x %d", g.Intn(6), g.Pick(0, 0x61, 0x80, 0xff), 1000001+g.Intn(60000))
+	c23GenRep(g)
 	for i := 0; i < g.N; i++ {
+		if g.Tier == "thorough" && i%4000 == 1999 {
+			c23GenRep(g)
+		}
 		depth := g.Intn(4)
 		switch c := g.Intn(24); {
 		case c < 7:
@@ -1953,6 +1966,75 @@ func (c23Runner) step(t []string, o *Oracle) string {
 		}
 		o.Count("raw-err")
 		return "err"
+	case "rep":
+		// long payloads: n copies of one byte as []byte / string, top level and nested
+		if len(t) != 4 {
+			return "bad-op"
+		}
+		tm, err1 := strconv.Atoi(t[1])
+		bb := unhx(t[2])
+		n, err2 := strconv.Atoi(t[3])
+		if err1 != nil || err2 != nil || len(bb) != 1 || n < 0 || n > 1<<26 {
+			return "bad-op"
+		}
+		payload := bytes.Repeat(bb, n)
+		if n == 0 {
+			payload = []byte{}
+		}
+		type r2 struct {
+			A uint8
+			B []byte
+		}
+		type r3 struct {
+			S string
+			I int16
+		}
+		type r5 struct {
+			P *string
+			L []uint16
+		}
+		var val, back interface{}
+		switch tm {
+		case 0:
+			v := payload
+			val, back = &v, new([]byte)
+		case 1:
+			v := string(payload)
+			val, back = &v, new(string)
+		case 2:
+			val, back = &r2{7, payload}, new(r2)
+		case 3:
+			v := &r3{string(payload), -2}
+			val, back = &v, new(*r3)
+		case 4:
+			v := [][]byte{payload, {1}}
+			val, back = &v, new([][]byte)
+		case 5:
+			ps := string(payload)
+			val, back = &r5{&ps, []uint16{1, 300}}, new(r5)
+		default:
+			return "bad-op"
+		}
+		e, err := codec.RLP.MarshalToBytes(val)
+		if err != nil {
+			return "err"
+		}
+		o.Count("rep")
+		if n > 1000000 {
+			o.Count("rep-over-1e6")
+		}
+		rem, err := codec.BC.UnmarshalFromBytes(e, back)
+		same := err == nil && len(rem) == 0 && reflect.DeepEqual(reflect.ValueOf(val).Elem().Interface(), reflect.ValueOf(back).Elem().Interface())
+		o.Check(same, "roundtrip-mismatch", "template %d with a %d byte payload: %d encoded bytes do not decode back (err=%v, rest %d bytes)", tm, n, len(e), err, len(rem))
+		res := "err"
+		if same {
+			res = "ok"
+		}
+		head := e
+		if len(head) > 8 {
+			head = head[:8]
+		}
+		return fmt.Sprintf("%d %s %s", len(e), hx(head), res)
 	case "tobj":
 		b := unhx(t[1])
 		var to *codec.TypedObj
